@@ -320,7 +320,7 @@ Proof.
   unfold Rinv, srv_finish. cbv zeta. intros Hi. cbn [fst r_hd with_hd].
   set (R1 := if q_head q then with_skip R true else R).
   assert (H1 : inv (r_hd R1)). { subst R1. destruct (q_head q); exact Hi. }
-  set (cc := q_close q || c_disableKA c || hclose (rh (r_hd R1))).
+  set (cc := q_close q || c_disableKA c || _ || hclose (rh (r_hd R1))).
   assert (H2 : inv (if cc then RSetConnectionClose (r_hd R1)
                     else if negb (q_http11 q) then with_rh (r_hd R1) (hsetNonSpecial (rh (r_hd R1)) strConnection strKeepAlive)
                     else r_hd R1)).
